@@ -19,6 +19,7 @@ func sortStrings(s []string) { sort.Strings(s) }
 type World struct {
 	S    *verifrt.Sched
 	Nets []*Net
+	Tuns []*Tun
 	Tap  *Tap
 
 	mu     sync.Mutex
